@@ -495,7 +495,12 @@ pub fn run_child(mut cmd: std::process::Command, input: Option<Vec<u8>>, limit_s
             Ok(Some(s)) => break Ok(s),
             Ok(None) => {
                 if start.elapsed().as_secs() > limit_secs {
-                    break Err(format!("still running after {limit_secs} s (wall-clock watchdog)"));
+                    // slow (loaded machine) or blocked for ever? A process group that has used
+                    // almost no CPU during the whole limit is blocked
+                    break Err(match group_cpu_ticks(child.id()) {
+                        Some(t) if t < 100 => format!("BLOCKED: still alive after {limit_secs} s having used {t} clock ticks of CPU"),
+                        _ => format!("still running after {limit_secs} s (wall-clock watchdog)"),
+                    });
                 }
                 std::thread::sleep(std::time::Duration::from_millis(2));
             }
@@ -512,4 +517,23 @@ pub fn run_child(mut cmd: std::process::Command, input: Option<Vec<u8>>, limit_s
     let stdout = t1.join().unwrap_or_default();
     let stderr = t2.join().unwrap_or_default();
     status.map(|status| std::process::Output { status, stdout, stderr })
+}
+
+/// CPU time (clock ticks, user + system) used so far by the live processes of a process group.
+pub fn group_cpu_ticks(pgid: u32) -> Option<u64> {
+    let mut total = 0u64;
+    let mut seen = false;
+    for e in std::fs::read_dir("/proc").ok()?.flatten() {
+        let name = e.file_name();
+        let Some(pid) = name.to_str().and_then(|s| s.parse::<u32>().ok()) else { continue };
+        let Ok(stat) = std::fs::read_to_string(format!("/proc/{pid}/stat")) else { continue };
+        let Some(rest) = stat.rsplit_once(") ").map(|x| x.1) else { continue };
+        let f: Vec<&str> = rest.split(' ').collect();
+        // rest[0]=state [1]=ppid [2]=pgrp ... [11]=utime [12]=stime
+        if f.len() > 12 && f[2].parse::<u32>().ok() == Some(pgid) {
+            seen = true;
+            total += f[11].parse::<u64>().unwrap_or(0) + f[12].parse::<u64>().unwrap_or(0);
+        }
+    }
+    seen.then_some(total)
 }
